@@ -34,7 +34,7 @@ def classify_build(out, feats):
                 "invalid-operation" if "invalid operation" in msg else "undefined-name" if "undefined:" in msg else "declared-and-not-used" if "declared and not used" in msg else "other: " + msg[:60])
         return "build/attribute-named-%s/%s/%s" % (feats["risky"], area.split("/")[-1], kind)
     prefix = "build/nested-inline-object" if feats["nested_inline"] else "build"
-    return "%s/%s: %s" % (prefix, re.sub(r"(front|svc|store|calc)", "S", area), msg)
+    return "%s/%s: %s" % (prefix, re.sub(r"(front|svc|store|calc|goals)", "S", area), msg)
 
 
 def run(c):
